@@ -220,6 +220,25 @@ func (c *apiCall) req(oids []interface{}, extra string) string {
 type apiEnv struct {
 	client lungo.IClient
 	engine *lungo.Engine
+	// lastFind is the decoded result of the most recent successful find (held by the C03 monitor)
+	lastFind []bson.D
+}
+
+func findOpts(c *apiCall) *options.FindOptions {
+	o := options.Find()
+	if c.HasSort {
+		o.SetSort(c.Sort)
+	}
+	if c.HasProj {
+		o.SetProjection(c.Proj)
+	}
+	if c.HasSkip {
+		o.SetSkip(c.Skip)
+	}
+	if c.HasLimit {
+		o.SetLimit(c.Limit)
+	}
+	return o
 }
 
 func openAPIEnv(store lungo.Store) (*apiEnv, error) {
@@ -328,20 +347,8 @@ func (e *apiEnv) exec(c *apiCall) (reply string, panicked string) {
 		}
 		return `{"ok":{"err":` + cls + `,"ids":` + encVals(res.InsertedIDs) + `}}`, ""
 	case "find":
-		o := options.Find()
-		if c.HasSort {
-			o.SetSort(c.Sort)
-		}
-		if c.HasProj {
-			o.SetProjection(c.Proj)
-		}
-		if c.HasSkip {
-			o.SetSkip(c.Skip)
-		}
-		if c.HasLimit {
-			o.SetLimit(c.Limit)
-		}
-		csr, err := coll.Find(ctx, c.Q, o)
+		e.lastFind = nil
+		csr, err := coll.Find(ctx, c.Q, findOpts(c))
 		if err != nil {
 			return errReply(err), ""
 		}
@@ -349,6 +356,7 @@ func (e *apiEnv) exec(c *apiCall) (reply string, panicked string) {
 		if err := csr.All(ctx, &out); err != nil {
 			return errReply(err), ""
 		}
+		e.lastFind = out
 		return `{"ok":{"docs":` + encDocList(out) + `}}`, ""
 	case "findOne":
 		o := options.FindOne()
